@@ -667,7 +667,7 @@ Proof.
     by (unfold st0; destruct (is_strobj (top_obj st)); simpl; auto 10).
   rewrite Htop0. destruct (is_strobj (top_obj st)) eqn:Eso.
   - destruct (fix_temporaries_good c st G) as (G0 & HJ0 & HR0 & HallJ).
-    assert (Est0 : st0 = fix_temporaries st) by (unfold st0; rewrite Eso; reflexivity).
+    assert (Est0 : st0 = fix_temporaries st) by (unfold st0; reflexivity).
     rewrite Est0 in *. clear Est0.
     set (p := optr (fix_temporaries st) (top_obj st)).
     assert (Hp : ptr_ok c (fix_temporaries st) p /\ Jp c (fix_temporaries st) p).
@@ -719,6 +719,6 @@ Proof.
       * rewrite IH by exact Hl. reflexivity.
     + intros fr o Hfr Ho. apply Hobj. eapply (g_stack _ _ G0); eauto.
     + intros o Ho. apply Hobj, (g_tvals _ _ G0), Ho.
-  - unfold errR. assert (Est0 : st0 = st) by (unfold st0; rewrite Eso; reflexivity). rewrite Est0.
+  - unfold errR. assert (Est0 : st0 = st) by (unfold st0; reflexivity). rewrite Est0.
     spl; auto; intros; discriminate.
 Qed.
